@@ -363,6 +363,7 @@ impl Monitor for C08 {
             stream("v1-mut", tier.n(50, 100_000, 10_000_000)),
             stream("v1-eol", tier.n(20, 50_000, 5_000_000)),
             exhaustive("calling-context", 2),
+            exhaustive("v1-collide", if tier == Tier::Miri { 0 } else { 2 * spec::collide::v1_pairs().len() as u64 }),
         ]
     }
     fn run_case(&self, stream: &str, idx: u64, seed: u64, rec: &mut Recorder) {
